@@ -40,7 +40,7 @@ def updFn (name : String) : Option (List Val → Option Val → Val) :=
       .int ((vs.foldl (fun a v => match v with | .int i => a + i | _ => a) 0) + (match st with | some (.int s) => s | _ => 0))
   | "last" => some fun vs st => match vs.getLast? with | some v => v | none => opt st
   | "count" => some fun vs st => .int (vs.length + (match st with | some (.int s) => s | _ => 0))
-  | "append" => some fun vs st => .lst ((match st with | some (.lst l) => l | _ => []) ++ vs)
+  | "append" | "extend" => some fun vs st => .lst ((match st with | some (.lst l) => l | _ => []) ++ vs)
   | _ => none
 
 /-- one-input per-batch operations as functions on RDDs (mirroring dstream.py through the RDD models) -/
